@@ -806,6 +806,9 @@ def _judge_declared(c):
     try:
         ss = [Identity(name="%ss%d" % (tag, i), input_dim=d, output_dim=d) for i, d in enumerate(dims)]
         r = Identity(name=tag + "r", input_dim=sum(dims), output_dim=sum(dims))
+        if c.get("initialised"):          # the same nodes, each already run once on data of its width
+            for n_, d in zip(ss + [r], dims + [sum(dims)]):
+                n_.run(np.ones((1, d)))
         how = c["how"]
         if how == "list":
             m = ss >> r
@@ -831,14 +834,17 @@ def _judge_declared(c):
         if out.shape != (2, sum(dims)) or sorted(out[0].tolist()) != exp:
             return _viol("declared-dims:wrong-output", "fan-in of declared-dimension nodes: the receiver does not get each predecessor once", c, exp, out.tolist())
     except Exception as e:  # noqa: BLE001
+        if c.get("initialised"):
+            return _viol("link:initialised-fan-in-rejected", "a legal fan-in of INITIALISED nodes of widths %s -> %d (%s) raises %r"
+                         % (dims, sum(dims), c["how"], e), c)
         return _viol("declared-dims:fan-in-rejected", "a legal fan-in of nodes created with declared dimensions %s -> %d (%s) raises %r"
                      % (dims, sum(dims), c["how"], e), c)
     return None
 
 
 def declared_cases(rng, count):
-    return [{"kind": "declared", "dims": [rng.randint(1, 3) for _ in range(rng.randint(2, 3))], "how": rng.choice(["list", "link", "merge", "union"])}
-            for _ in range(count)]
+    return [{"kind": "declared", "dims": [rng.randint(1, 3) for _ in range(rng.randint(2, 3))], "how": rng.choice(["list", "link", "merge", "union"]),
+             "initialised": k % 3 == 2} for k in range(count)]
 
 
 def oracle(ctx, scale=1):
